@@ -37,7 +37,7 @@ THOROUGH = QUICK + [
 CHECKS = {
  'C05': {
   'level': 'model_checking',
-  'explanation': 'ExplicitTreeAut::Reduce() executed symbolically on every automaton whose rules are drawn from the rule universe of the configuration (presence bit per rule, finality bit per state), built with dense, permuted (concrete or symbolic permutation) or sparse concrete state numbers; the returned automaton is decoded by iterating its transitions and final states, independently of how its states are numbered (slot table of the distinct state numbers, harness/common/decode_free.h), and compared with the input: language equality by two macro-state inclusion oracles, number of occurring states and number of rules not larger (Reduce returns no state map, so "every state is the image of a state of A" is observable only through the state count), operand unchanged.',
+  'explanation': 'ExplicitTreeAut::Reduce() executed symbolically on every automaton whose rules are drawn from the rule universe of the configuration (presence bit per rule, finality bit per state), built with dense, permuted (concrete or symbolic permutation) or sparse concrete state numbers; the returned automaton is decoded by iterating its transitions and final states and compared with the input: language equality by two macro-state inclusion oracles, number of occurring states and number of rules not larger, every state of the result is a state of the input (the representative chosen by the quotient projection), operand unchanged.',
   'bounds': {'quick': 'automata over 2 states with {a/0,f/1} (dense and sparse {5,2}), {a/0,b/0,f/1} (symbolic numbering), {a/0,g/2} (swapped), {a/0,f/1,g/2}; over 3 states with {a/0,f/1} (dense, sparse {7,0,3}, symbolic numbering), {a/0,b/0,f/1} (sparse {4,9,1}), and {a/0,g/2} restricted to the 9 binary rules with ascending children; all rule subsets and final sets (8..18 free bits per query)',
              'thorough': 'as quick plus 2 x {a/0,f/1,g/2} sparse, 2 x {a/0,b/0,f/1,g/2}, 3 x {a/0,b/0,f/1} with symbolic numbering, two further sub-universes of 3 x {a/0,g/2} (9 rules g(c,c)->p with sparse numbers {2,8,5}; 12 rules), 2 x {a/0,b/0,g/2} with symbolic numbering'},
   'outside': 'more than 3 states, rank > 2, 3 states with a binary symbol outside the listed sub-universes, one symbol used with two ranks, automata sharing storage with other automata (see C11), ReduceParam relations other than TA_DOWNWARD (none is implemented)',
